@@ -1,4 +1,5 @@
 import Pycoin.Proofs.ScriptNum
+import Pycoin.Proofs.ScriptPush
 /-!
 C12 — Script integers, data pushes and script text encode canonically and losslessly.
 Part 1: script numbers (`IntStreamer`).  Core Lean only.
@@ -371,3 +372,124 @@ theorem C12_num_minimal (v : Int) :
 #guard Spec.minimalNum [0x80, 0x00] && !Spec.minimalNum [0x7f, 0x00] && !Spec.minimalNum [0x80]
 
 end Pycoin.ScriptNum
+
+/-!
+Part 2: data pushes and the instruction decoder (`ScriptStreamer.compile_push_data`, `get_opcode`).
+`Spec.getScriptOp`, `Spec.checkMinimalPush`, `Spec.pushValue` are Bitcoin Core's `GetScriptOp`,
+`CheckMinimalPush` and the value the interpreter pushes; `Spec.minimalPush` is the push the rule demands.
+The tables come from `Gen/Opcodes.lean` (the live `BitcoinScriptStreamer`); every fact about them used here is
+re-proved by kernel evaluation of the whole table on every run (`Proofs/ScriptTables.lean`).
+-/
+namespace Pycoin.Script
+
+/-- **C12.push_shortest** — for every `d` shorter than 2^32 bytes `compile_push_data d` is the push form the consensus
+rule demands (`OP_0`, `OP_1..OP_16`, `OP_1NEGATE`, direct push ≤ 75, `PUSHDATA1` ≤ 255, `PUSHDATA2` ≤ 65535, else
+`PUSHDATA4`): Core's `GetScriptOp` reads it back as one instruction that pushes exactly `d`, followed by whatever
+follows, and Core's `CheckMinimalPush` accepts it. -/
+theorem C12_push_shortest (d rest : Bytes) (h : d.length < 2 ^ 32) :
+    compilePushData d = .ok (Spec.minimalPush d) ∧
+    ∃ opc payload, Spec.getScriptOp (Spec.minimalPush d ++ rest) = some (opc, payload, rest) ∧
+      Spec.pushValue opc payload = some d ∧ (opc ≤ 0x4e → Spec.checkMinimalPush opc payload = true) :=
+  ⟨compilePushData_eq d h, getScriptOp_minimalPush d rest h⟩
+
+/-- the other side of the 2^32 bound: `struct.pack("<L", …)` raises `struct.error` -/
+theorem C12_push_overflow (d : Bytes) (h : 2 ^ 32 ≤ d.length) : compilePushData d = .error .structError :=
+  compilePushData_overflow d h
+
+/-- **C12.getOp_refines** — for every script, every `pc` inside it and both settings of `verify_minimal_data`,
+`get_opcode` answers what Core's `GetScriptOp` + `CheckMinimalPush` dictate: truncated ⇒ `(opcode, None, _, False)`;
+otherwise `ScriptError` exactly when verification is on and the push is not minimal; otherwise the same data, the
+same next `pc`, `is_ok = True`. (Shared with C03.) -/
+theorem C12_getOp_refines (script : Bytes) (pc : Nat) (vm : Bool) (b : UInt8) (r : Bytes)
+    (hd : script.drop pc = b :: r) : getOpcode script pc vm = coreAnswer script pc vm b r :=
+  getOpcode_refines script pc vm b r hd
+
+/-- **C12.getOp_push** — the decoder reads a compiled push back: same data, the right next `pc`, accepted, with
+minimal-data verification on or off, wherever the push sits in a script -/
+theorem C12_getOp_push (pre d rest : Bytes) (vm : Bool) (h : d.length < 2 ^ 32) :
+    ∃ push op, compilePushData d = .ok push ∧ push.head? = some op ∧
+      getOpcode (pre ++ push ++ rest) pre.length vm = .ok ⟨op, some d, pre.length + push.length, true⟩ := by
+  obtain ⟨opc, payload, hg, hv, hm⟩ := getScriptOp_minimalPush d rest h
+  have hne : Spec.minimalPush d ++ rest ≠ [] := by
+    intro he; rw [he] at hg; simp [Spec.getScriptOp] at hg
+  obtain ⟨b, r, hbr⟩ : ∃ b r, Spec.minimalPush d ++ rest = b :: r := by
+    cases hl : Spec.minimalPush d ++ rest with
+    | nil => exact absurd hl hne
+    | cons b r => exact ⟨b, r, rfl⟩
+  have hpne : Spec.minimalPush d ≠ [] := by
+    unfold Spec.minimalPush; split <;> (try split) <;> (try split) <;> (try split) <;> simp
+  have hhead : (Spec.minimalPush d).head? = some b := by
+    cases hp : Spec.minimalPush d with
+    | nil => exact absurd hp hpne
+    | cons x xs => rw [hp] at hbr; simp at hbr; simp [hbr.1]
+  refine ⟨Spec.minimalPush d, b, compilePushData_eq d h, hhead, ?_⟩
+  have hd : (pre ++ Spec.minimalPush d ++ rest).drop pre.length = b :: r := by
+    rw [List.append_assoc, List.drop_left, hbr]
+  rw [getOpcode_refines _ _ vm b r hd]
+  unfold coreAnswer
+  rw [← hbr, hg]
+  simp only [hv]
+  have hlen : (pre ++ Spec.minimalPush d ++ rest).length - rest.length = pre.length + (Spec.minimalPush d).length := by
+    simp only [List.length_append]; omega
+  rw [hlen]
+  by_cases ho : opc ≤ 0x4e
+  · simp [hm ho]
+  · simp [ho]
+
+/-- **C12.truncated_malformed** — whenever Core's `GetScriptOp` fails at `pc` (the bytes that remain are fewer than the
+direct-push opcode, the declared PUSHDATA length — any value below 2^32 — or the length field itself needs), `get_opcode`
+reports `(opcode, None, _, is_ok = False)`; it never raises and never returns data, with verification on or off. -/
+theorem C12_truncated_malformed (script : Bytes) (pc : Nat) (vm : Bool) (b : UInt8) (r : Bytes)
+    (hd : script.drop pc = b :: r) (ht : Spec.getScriptOp (b :: r) = none) :
+    ∃ npc, getOpcode script pc vm = .ok ⟨b, none, npc, false⟩ := by
+  rw [getOpcode_refines script pc vm b r hd]
+  unfold coreAnswer
+  rw [ht]
+  exact ⟨_, rfl⟩
+
+/-- the explicit truncation shapes: a direct push, a PUSHDATA with a complete length field, and a cut length field -/
+theorem C12_truncated_shapes (tail : Bytes) :
+    (∀ n : Nat, 1 ≤ n → n ≤ 75 → tail.length < n → Spec.getScriptOp (UInt8.ofNat n :: tail) = none) ∧
+    (∀ n : Nat, n < 256 → tail.length < n → Spec.getScriptOp (0x4c :: (leBytes n 1 ++ tail)) = none) ∧
+    (∀ n : Nat, n < 65536 → tail.length < n → Spec.getScriptOp (0x4d :: (leBytes n 2 ++ tail)) = none) ∧
+    (∀ n : Nat, n < 2 ^ 32 → tail.length < n → Spec.getScriptOp (0x4e :: (leBytes n 4 ++ tail)) = none) ∧
+    (tail.length < 1 → Spec.getScriptOp (0x4c :: tail) = none) ∧
+    (tail.length < 2 → Spec.getScriptOp (0x4d :: tail) = none) ∧
+    (tail.length < 4 → Spec.getScriptOp (0x4e :: tail) = none) := by
+  refine ⟨?_, ?_, ?_, ?_, ?_, ?_, ?_⟩
+  · intro n h1 h75 ht
+    have e := ofNat_toNat_lt (show n < 256 by omega)
+    have e1 : n ≤ 78 := by omega
+    have e2 : n < 76 := by omega
+    simp [getScriptOp_cons, specOp, e, e1, e2, ht]
+  · intro n hn ht
+    have hl : leNat (leBytes n 1) = n := leNat_leBytes_of_lt (by omega)
+    have e : (List.take 1 (leBytes n 1 ++ tail)) = leBytes n 1 := by rw [List.take_left' (by simp)]
+    have e' : (List.drop 1 (leBytes n 1 ++ tail)) = tail := by rw [List.drop_left' (by simp)]
+    simp only [getScriptOp_cons, specOp]
+    simp [e, e', hl, ht]
+  · intro n hn ht
+    have hl : leNat (leBytes n 2) = n := leNat_leBytes_of_lt (by omega)
+    have e : (List.take 2 (leBytes n 2 ++ tail)) = leBytes n 2 := by rw [List.take_left' (by simp)]
+    have e' : (List.drop 2 (leBytes n 2 ++ tail)) = tail := by rw [List.drop_left' (by simp)]
+    have hw : ¬ 2 + tail.length < 2 := by omega
+    simp only [getScriptOp_cons, specOp]
+    simp [e, e', hl, ht, hw]
+  · intro n hn ht
+    have hl : leNat (leBytes n 4) = n := leNat_leBytes_of_lt (by omega)
+    have e : (List.take 4 (leBytes n 4 ++ tail)) = leBytes n 4 := by rw [List.take_left' (by simp)]
+    have e' : (List.drop 4 (leBytes n 4 ++ tail)) = tail := by rw [List.drop_left' (by simp)]
+    have hw : ¬ 4 + tail.length < 4 := by omega
+    simp only [getScriptOp_cons, specOp]
+    simp [e, e', hl, ht, hw]
+  · intro ht; simp [getScriptOp_cons, specOp, ht]
+  · intro ht; simp [getScriptOp_cons, specOp, ht]
+  · intro ht; simp [getScriptOp_cons, specOp, ht]
+
+#guard compilePushData (List.replicate 256 7) matches .ok (0x4d :: 0x00 :: 0x01 :: _)
+#guard getOpcode (0x4d :: 0x00 :: 0x01 :: List.replicate 256 7) 0 true matches .ok ⟨0x4d, some _, 259, true⟩
+#guard getOpcode [0x4c] 0 false matches .ok ⟨0x4c, none, 2, false⟩
+#guard getOpcode [0x4c, 0x00] 0 true matches .error .scriptError
+#guard getOpcode [0x05, 1, 2] 0 true matches .ok ⟨0x05, none, 2, false⟩
+
+end Pycoin.Script
